@@ -531,11 +531,21 @@ def scale_quantisation(V, **params):
     return c09.qs(V, **params)
 
 
-FUNCS = {"scale_values": scale_values, "scale_quantisation": scale_quantisation, "buffering": buffering, "weight_ranges": weight_ranges, "codec_args": codec_args, "encode": encode, "cache": cache, "cache_key": cache_key, "bias": bias, "bias_rejects": bias_rejects}
+def idle_core(V, **params):
+    """each channel exactly once: a core without a weight/scale stream of its own is programmed with length 0, not with another core's range
+    (harness/c06.py pair, weights/biases groups on the two-core accelerator; also registered under C02)"""
+    from harness import c06
+
+    return c06.pair(V, **params)
+
+
+FUNCS = {"idle_core": idle_core, "scale_values": scale_values, "scale_quantisation": scale_quantisation, "buffering": buffering, "weight_ranges": weight_ranges, "codec_args": codec_args, "encode": encode, "cache": cache, "cache_key": cache_key, "bias": bias, "bias_rejects": bias_rejects}
 
 
 def instances(tier, seed):
     out = []
+    for gname in ("weights", "biases"):
+        out.append(dict(key="idle_core/%s" % gname, fn="idle_core", params=dict(accel="Ethos_U65_512", kind="conv", group=gname, light=True), weight=100))
     for accel in ("Ethos_U55_128", "Ethos_U65_512"):
         for sl in SLICINGS:
             if accel.endswith("512") and any(d % 2 for d in sl[1:-1]):
